@@ -147,6 +147,7 @@ class Check:
                     "non-trivial because it is only counted when the rule's pattern matched a concrete construct",
             "samples": samples,
             "per_rule": per_rule,
+            "instances": sorted({"%s:%s%s" % (r, k, "" if ok else " [violated]") for r, k, ok in self.obl}),
             "floors": [{"rule": r, "matched": m, "minimum": mn} for r, m, mn in self.floors],
             "functions_analysed": self.fn_count,
             "configs": self.configs,
